@@ -117,7 +117,10 @@ place would see:
 `VerifCtxListing` reports for the real code. Sub-generators (`NewSubGenerator`, `Reset`)
 start from scopes = 0, Tail = false and get the fields the Go code copies, no others.
 Outside the model (`none`, like a compile error): mdef, assert, defmac, macexpand,
-syntaxQuote, include, package, _ls, assignment lists (`=`, `:=`), builder calls, lazy formals.
+include, package, _ls, assignment lists (`=`, `:=`), builder calls, lazy formals. Follows
+/repo 0d48297 (C04-02 … C04-09: `(begin)` pushes nil, quote takes one argument, cond tests keep the
+scopes, Tail cleared in let initialisers, array literals, multi-value return and template parts,
+self tail call only when the arity fits).
 -/
 
 /-- The context-sensitive instructions. A closure body is bracketed by `fnOpen … fnClose`. -/
@@ -147,6 +150,10 @@ structure GenSt where
   tail : Bool
   funcname : String
   next : Nat
+  /-- formals of the function known as `funcname` (gen.knownFunctions, shared by all
+  sub-generators): a self tail call is a jump only when the number of arguments fits -/
+  nargs : Nat := 0
+  varargs : Bool := false
   deriving DecidableEq, Repr
 
 /-- What the interpreter knows while compiling: the macro table, how hashes are made (for
@@ -173,7 +180,7 @@ abbrev GenFn := List Loop → GenSt → Sexp → GenRes
 /-- `NewSubGenerator()` followed by the assignments the Go code makes: everything else starts
 from the zero value. The gensym counter is the interpreter's. -/
 def subgen (s : GenSt) (scopes : Nat) (tail : Bool) (funcname : String) : GenSt :=
-  { scopes := scopes, tail := tail, funcname := funcname, next := s.next }
+  { scopes := scopes, tail := tail, funcname := funcname, next := s.next, nargs := s.nargs, varargs := s.varargs }
 
 /-- back in the parent generator after a sub-generator ran: only the counter moved -/
 def GenSt.after (s sub : GenSt) : GenSt := { s with next := sub.next }
@@ -231,13 +238,14 @@ def genLet (rec : GenSt → Sexp → GenRes) (args : List Sexp) (s : GenSt) : Ge
         let rhs := (List.range (bs.length / 2)).map (fun i => bs.getD (2 * i + 1) .nil)
         if lhs.any (fun x => (symName? x).isNone) then none
         else do
-          let (a, s1) ← genSeq rec rhs { s with scopes := s.scopes + 1 }
-          let (b, s2) ← genBegin rec body s1
+          -- the initialisers are compiled with Tail false; it is restored before the body
+          let (a, s1) ← genSeq rec rhs { s with scopes := s.scopes + 1, tail := false }
+          let (b, s2) ← genBegin rec body { s1 with tail := s.tail }
           some (.addScope :: a ++ b ++ [.remScope], { s2 with scopes := s2.scopes - 1 })
   | _ => none
 
 /-- GenerateCond: the default and every branch body in a sub-generator with Tail, scopes and
-funcname of the caller; every predicate after `Reset()` — Tail false, scopes 0. -/
+funcname of the caller; every test after `Reset()` with the caller's scopes again — Tail false. -/
 def genCond (rec : GenSt → Sexp → GenRes) (args : List Sexp) (s : GenSt) : GenRes :=
   if args.length % 2 = 0 then none
   else
@@ -246,7 +254,7 @@ def genCond (rec : GenSt → Sexp → GenRes) (args : List Sexp) (s : GenSt) : G
         let (c, sd) ← rec (subgen s' s.scopes s.tail s.funcname) dflt
         some (c, s'.after sd)
       | p :: b :: more, s' => do
-        let (cp, sp) ← rec (subgen s' 0 false s.funcname) p
+        let (cp, sp) ← rec (subgen s' s.scopes false s.funcname) p
         let (cb, sb) ← rec (subgen (s'.after sp) s.scopes s.tail s.funcname) b
         let (cr, sr) ← go more ((s'.after sp).after sb)
         some (cp ++ cb ++ cr, sr)
@@ -378,8 +386,12 @@ def genFun (E : CEnv) (rec : GenSt → Sexp → GenRes) (name : String) (params 
     if ps.any (fun x => (symName? x).isNone) then none
     else
       let fname := if name = "" then anonName else if rebindsOwnName E name ps body then "" else name
+      -- `[a b & rest]`: two fixed formals, the rest packed
+      let va := ps.length ≥ 2 && ps.getD (ps.length - 2) .nil = .atom (.sym "&")
+      let na := if va then ps.length - 2 else ps.length
       do
-        let (c, sf) ← genBegin rec body { scopes := 0, tail := true, funcname := fname, next := s.next }
+        let (c, sf) ← genBegin rec body { scopes := 0, tail := true, funcname := fname, next := s.next,
+                                          nargs := na, varargs := va }
         some (.fnOpen :: c ++ [.remScope, .fnClose], s.after sf)
 
 /-- GenerateForLoop: the loop is pushed on env.loopstack; body, init, test and increment are
@@ -409,6 +421,31 @@ def genFor (rec : List Loop → GenSt → Sexp → GenRes) (loops : List Loop) (
       | none => none
   | _ => none
 
+/-- GenerateSyntaxQuote and friends as far as the context goes: the unquoted expressions are
+compiled by `gen.Generate` on the same generator (the case "syntaxQuote" clears Tail around
+the whole template); everything else is pushes, markers, squash … — nothing context-sensitive. -/
+def genTmplC (rec : GenSt → Sexp → GenRes) : Nat → Sexp → GenSt → GenRes
+  | 0, _, _ => none
+  | k + 1, t, s =>
+    match t with
+    | .arr elems =>
+      match listToArray elems with
+      | some xs => genSeq (fun s x => genTmplC rec k x s) xs s
+      | none => some ([], s)
+    | .hash _ flat =>
+      match listToArray flat with
+      | some xs => genSeq (fun s x => genTmplC rec k x s) xs s
+      | none => some ([], s)
+    | .cons h tl =>
+      if !isList tl then some ([], s)
+      else match unqKind h tl with
+        | some (_, e) => rec s e
+        | none =>
+          match listToArray (.cons h tl) with
+          | some xs => genSeq (fun s x => genTmplC rec k x s) xs s
+          | none => some ([], s)
+    | _ => some ([], s)
+
 /-- `Generate(form)` in context: the loop stack `loops` and the generator state `s`. -/
 def genC (E : CEnv) : Nat → GenFn
   | 0, _, _, _ => none
@@ -418,9 +455,9 @@ def genC (E : CEnv) : Nat → GenFn
     | .atom _ => some ([], s)                    -- EnvToStack / Push
     | .nil => some ([], s)
     | .hash _ _ => some ([], s)
-    | .arr elems =>                              -- GenerateArray: GenerateAll, then `array`
+    | .arr elems =>                              -- GenerateArray: GenerateAll with Tail false, then `array`
       match listToArray elems with
-      | some xs => genSeq rec' xs s
+      | some xs => (genSeq rec' xs { s with tail := false }).map (fun (c, s1) => (c, { s1 with tail := s.tail }))
       | none => none
     | .cons h t =>
       match listToArray t with
@@ -433,7 +470,7 @@ def genC (E : CEnv) : Nat → GenFn
             -- GenerateCallBySymbol: the switch
             if f = "and" || f = "or" then genShort rec' args s
             else if f = "cond" then genCond rec' args s
-            else if f = "quote" then some ([], s)
+            else if f = "quote" then (if args.length = 1 then some ([], s) else none)
             else if f = "def" || f = "set" then
               match args with
               | [lhs, rhs] =>
@@ -453,13 +490,23 @@ def genC (E : CEnv) : Nat → GenFn
                 if E.builtin name || (E.macros name).isSome then none
                 else genFun E rec' name params body s
               | _ => none
-            else if f = "begin" then genBegin rec' args s
+            else if f = "begin" then (if args.isEmpty then some ([], s) else genBegin rec' args s)  -- (begin): push nil
             else if f = "let" || f = "letseq" then genLet rec' args s
             else if f = "for" then genFor (fun l s x => genC E n l s x) loops args s
             else if f = "break" then genBrk true loops args s
             else if f = "continue" then genBrk false loops args s
             else if f = "newScope" then genNewScope rec' args s
-            else if f = "return" then genSeq rec' args s
+            else if f = "return" then
+              -- several results are collected into one array: none of them in tail position
+              if args.length > 1 then
+                (genSeq rec' args { s with tail := false }).map (fun (c, s1) => (c, { s1 with tail := s.tail }))
+              else genSeq rec' args s
+            else if f = "syntaxQuote" then
+              match args with
+              | [t] =>
+                if isUnquoteSplicing t then none
+                else (genTmplC rec' n t { s with tail := false }).map (fun (c, s1) => (c, { s1 with tail := s.tail }))
+              | _ => none
             else none
           else match E.macros f with
             | some m =>
@@ -468,7 +515,9 @@ def genC (E : CEnv) : Nat → GenFn
               (expand E.mkHash m args).bind (genC E n loops s)
             | none =>
               -- an ordinary call
-              if s.tail && f = s.funcname then do
+              -- a jump only when the number of arguments fits the formals of the known function
+              let fits := if s.varargs then decide (args.length ≥ s.nargs) else decide (args.length = s.nargs)
+              if s.tail && f = s.funcname && fits then do
                 let (a, s1) ← genSeq rec' args { s with tail := false }
                 some (a ++ [KI.prepCall args.length] ++ List.replicate (s1.scopes + 1) KI.remScope ++ [KI.goto0],
                       { s1 with tail := s.tail })
